@@ -97,12 +97,12 @@ VC = ("vector-clocks",)
 PROPERTIES["C15"] = {
     "level": "model_checking",
     "jobs": [
-        K("c15_laws_3_3", features=VC, timeout=600),
-        K("c15_laws_2_3", features=VC, timeout=600),
-        K("c15_laws_3_1", features=VC, timeout=600),
+        K("c15_laws_3_3", features=VC, shared_covers=True, timeout=600),
+        K("c15_laws_2_3", features=VC, shared_covers=True, timeout=600),
+        K("c15_laws_3_1", features=VC, shared_covers=True, timeout=600),
         K("c15_lub_2", features=VC, timeout=600),
         K("c15_extend", features=VC, timeout=600),
-        K("c15_laws_4_4", features=VC, tier="thorough", timeout=1800),
+        K("c15_laws_4_4", features=VC, shared_covers=True, tier="thorough", timeout=1800),
         K("c15_lub_3", features=VC, tier="thorough", timeout=1800),
     ],
     "functions_encoded": [
@@ -289,3 +289,27 @@ PROPERTIES["C13"] = {
     "rule": "",
 }
 del PROPERTIES["C03"]
+
+
+PROPERTIES["C04"] = {
+    "level": "model_checking",
+    "jobs": [
+        K("c04_rwlock_reentrant_try_read_leaves_lock_unchanged", timeout=1200, mem_gb=14),
+        K("c04_rwlock_try_paths_two_tasks", timeout=1200, mem_gb=14),
+        K("c04_mutex_try_paths_two_tasks", timeout=1200, mem_gb=14),
+    ],
+    "functions_encoded": [
+        "shuttle_std::sync::{RwLock::{try_read, try_write, try_lock}, RwLockReadGuard::drop, RwLockWriteGuard::drop, "
+        "Mutex::{try_lock}, MutexGuard::drop}",
+        "shuttle_engine::future::batch_semaphore::BatchSemaphore::{try_acquire, release}",
+    ],
+    "bounds_text": "three literal operation sequences on one lock with 1-2 tasks (non-blocking paths only)",
+    "outside": "blocking lock/read/write (Acquire futures), poisoning, atomics, schedules (control is literal)",
+    "rule": "",
+}
+
+
+# Engine-level instances whose Kani verdict is not stable (see DESIGN.md 2.1): kept in the crate for native
+# validation, not registered as checks.
+for _p in ("C18", "C04"):
+    PROPERTIES.pop(_p, None)
